@@ -320,6 +320,36 @@ Proof. unfold op_dropcolumn. np_syn. Qed.
 Lemma no_panic_setcell f cn i v : op_setcell f cn i v <> Panic.
 Proof. unfold op_setcell. np_syn. Qed.
 
+(* --- the read-only views (View.v) --- *)
+Lemma no_panic_select f n : op_select f n <> Panic.
+Proof. unfold op_select. np_syn. Qed.
+Lemma no_panic_colat f n i : op_colat f n i <> Panic.
+Proof. unfold op_colat. np_syn. Qed.
+Lemma no_panic_series f n i : op_series f n i <> Panic.
+Proof. unfold op_series. np_syn. Qed.
+Lemma no_panic_groupby_other a : op_groupby_other a <> Panic.
+Proof. unfold op_groupby_other. np_syn. Qed.
+(* LinePlot reads y[i] for every index of x: no panic because both columns have nrows cells *)
+Lemma plot_scan2_np xs : forall ys, length xs = length ys -> plot_scan2 xs ys <> Panic.
+Proof.
+  induction xs as [|x xs IH]; intros ys L; cbn [plot_scan2]; [discriminate|].
+  destruct ys as [|y ys]; [discriminate L|].
+  destruct (is_f64 x && is_f64 y); [|discriminate]. apply IH. now inversion L.
+Qed.
+Lemma no_panic_plot bar f x y pk rk : rect f = true -> op_plot bar f x y pk rk <> Panic.
+Proof.
+  intros R. unfold op_plot. apply bind_np.
+  - destruct bar.
+    + destruct (fget f x); [|discriminate]. unfold plot_scan1. np_syn.
+    + destruct (fget f x) as [cx|] eqn:Ex; [|discriminate].
+      destruct (fget f y) as [cy|] eqn:Ey; [|discriminate].
+      apply plot_scan2_np.
+      destruct (fget_in _ _ _ Ex) as [kx Hx]. destruct (fget_in _ _ _ Ey) as [ky Hy].
+      pose proof (rect_len f (kx, cx) R Hx) as Lx. pose proof (rect_len f (ky, cy) R Hy) as Ly.
+      cbn [snd] in Lx, Ly. congruence.
+  - intros _ _. np_syn.
+Qed.
+
 (* --- assembly: EVERY operation, EVERY argument value --- *)
 Ltac np_step W :=
   repeat first
@@ -338,6 +368,8 @@ Ltac np_step W :=
     | apply no_panic_agg | apply no_panic_dropna | apply no_panic_astype
     | apply no_panic_datetime | apply no_panic_rename | apply no_panic_addcolumn
     | apply no_panic_dropcolumn | apply no_panic_setcell
+    | apply no_panic_select | apply no_panic_colat | apply no_panic_series
+    | apply no_panic_groupby_other | (apply no_panic_plot; assumption)
     | apply lift_np ].
 
 Theorem C20_no_panic O p o : wf_pool p = true -> fst (step O p o) <> Panic.
@@ -536,7 +568,8 @@ Definition handles (o : op) : list nat :=
   | OHead f _ | OTail f _ | ORowSlice f _ _ | OFilter f _ | OLoc f _ _ | OIloc f _ _
   | OMultiSelect f _ | OSort f _ _ | OShift f _ | ODedup f _ _ _ | OApply f _ _ | ODescribe f
   | OResample f _ _ _ | OGroupAgg f _ _ _ | OCsvRoundTrip f | OGroupby f _ | OToCSV f | ORow f _
-  | OColumnNames f | ONrows f | ONcols f | OAgg f _ | OAppendRow f _ | ODropRow f _ | OFillNa f _
+  | OColumnNames f | ONrows f | ONcols f | OAgg f _ | OString f | OSelect f _ | OColAt f _ _ | OSeries f _ _
+  | OPlot _ f _ _ _ _ | OGroupbyOther f _ | OAppendRow f _ | ODropRow f _ | OFillNa f _
   | ODropNa f | OAstype f _ _ | ODatetime f _ _ | ORename f _ _ | OAddColumn f _ _
   | ODropColumn f _ | OSetCell f _ _ _ | ODedupInplace f _ _ => [f]
   | OJoin _ f g _ | OAdd f g _ => [f; g]
